@@ -724,6 +724,11 @@ def as_expression(fn: ast.FunctionDef) -> Optional[ast.expr]:
             if isinstance(st, ast.Assign) and len(st.targets) == 1 and isinstance(st.targets[0], ast.Name):
                 env[st.targets[0].id] = subst(st.value, env)
                 continue
+            if isinstance(st, ast.Assign) and len(st.targets) == 1 and isinstance(st.targets[0], (ast.Tuple, ast.List)) \
+                    and len(st.targets[0].elts) == 1 and isinstance(st.targets[0].elts[0], ast.Name) and isinstance(st.value, ast.Call):
+                # (x,) = unpack(F, data)    →   x = unpack(F, data)[0]
+                env[st.targets[0].elts[0].id] = ast.Subscript(value=subst(st.value, env), slice=ast.Constant(value=0), ctx=ast.Load())
+                continue
             if isinstance(st, ast.Return) and st.value is not None:
                 return subst(st.value, env)
             if isinstance(st, ast.If) and not any(isinstance(x, ast.Return) for b in (st.body, st.orelse) for y in b for x in ast.walk(y)):
@@ -1858,6 +1863,7 @@ def split_tuple_assigns(fn: ast.FunctionDef) -> ast.FunctionDef:
                 for i, t in enumerate(node.targets[0].elts):
                     out.append(ast.copy_location(ast.Assign(targets=[t], value=ast.Name(id=f"{node.value.id}__{i}", ctx=ast.Load())), node))
                 return out
+            # (x,) = CALL inside a helper that is read as an expression:  handled by as_expression (x = CALL[0])
             # head, _, _ = data.partition(sep)   reads as   head = data.partition(sep)[0]   (names that are never read are dropped)
             if len(node.targets) == 1 and isinstance(node.targets[0], (ast.Tuple, ast.List)) and len(node.targets[0].elts) == 3 \
                     and isinstance(node.value, ast.Call) and isinstance(node.value.func, ast.Attribute) and node.value.func.attr in ("partition", "rpartition") \
@@ -1880,7 +1886,9 @@ def split_tuple_assigns(fn: ast.FunctionDef) -> ast.FunctionDef:
             # q, r = divmod(x, k)   reads as   q = x // k; r = x % k      (x a plain name or attribute: evaluated twice is the same)
             if len(node.targets) == 1 and isinstance(node.targets[0], (ast.Tuple, ast.List)) and len(node.targets[0].elts) == 2 \
                     and isinstance(node.value, ast.Call) and norm(node.value.func) == "divmod" and len(node.value.args) == 2 \
-                    and all(isinstance(a, (ast.Name, ast.Attribute, ast.Constant)) for a in node.value.args) \
+                    and all(isinstance(a, (ast.Name, ast.Attribute, ast.Constant)) or
+                            (isinstance(a, ast.Subscript) and isinstance(a.value, ast.Call) and norm(a.value.func) in ("unpack", "struct.unpack")
+                             and not any(isinstance(x, ast.Call) for y in a.value.args for x in ast.walk(y))) for a in node.value.args) \
                     and not ({norm(t) for t in node.targets[0].elts} & {norm(a) for a in node.value.args}):
                 x, k = node.value.args
                 q = ast.copy_location(ast.Assign(targets=[node.targets[0].elts[0]], value=ast.BinOp(left=copy.deepcopy(x), op=ast.FloorDiv(), right=copy.deepcopy(k))), node)
